@@ -794,13 +794,18 @@ func (repo *Repository) MarkHeaderInvalid(ctx context.Context, hash bitcoin.Hash
 		}
 	}
 
+	// Check if hash was previously accepted
+	branch, height := repo.branches.Find(hash)
+	if branch != nil && branch.parent == nil && height == branch.parentHeight+1 {
+		// Trimming the first header of the root branch would leave no chain at all.
+		return errors.New("First header of root branch can't be marked invalid")
+	}
+
 	repo.invalidHashes = append(repo.invalidHashes, hash)
 	if err := saveInvalidHashes(ctx, repo.store, repo.invalidHashes); err != nil {
 		return errors.Wrap(err, "save invalid hashes")
 	}
 
-	// Check if hash was previously accepted
-	branch, height := repo.branches.Find(hash)
 	if branch == nil {
 		return nil // not found
 	}
